@@ -141,6 +141,27 @@ func jobsFor(prop, tier string) []*Job {
 					Bounds: fmt.Sprintf("%d administration calls (upsert with weight 0..2 / upsert without option / remove) on a universe of 4 URLs with 3 identities, checked after every call; then one rotation via NextServer or ServeHTTP with a URL-rewriting downstream handler; kind 0 = RoundRobin, 1 = through Rebalancer", k)})
 			}
 		}
+	case "C10":
+		ns := []int{2, 3}
+		for _, n := range ns {
+			if n == 3 && !thorough {
+				add(&Job{Name: fmt.Sprintf("O1b-normalize/n=%d", n), Pkg: "roundrobin", Harness: "VerifC10Normalize", Params: p("n", n), Inductive: true, TimeoutS: 120,
+					Bounds: fmt.Sprintf("normalizeWeights with a symbolic common divisor g in [2,2^13] of n=%d weights m_i*g, m_i in [1,2^13]", n)})
+				add(&Job{Name: fmt.Sprintf("O2-reset/n=%d", n), Pkg: "roundrobin", Harness: "VerifC10Reset", Params: p("n", n), TimeoutS: 120,
+					Bounds: fmt.Sprintf("add / re-weight / remove through the rebalancer from an arbitrary J-state, n=%d", n)})
+				continue
+			}
+			add(&Job{Name: fmt.Sprintf("O1a-adjust/n=%d,gcd-stubbed", n), Pkg: "roundrobin", Harness: "VerifC10Adjust", Params: p("n", n, "wmax", 1<<13, "stubgcd", 1), Inductive: true, TimeoutS: 120,
+				Bounds: fmt.Sprintf("one adjustWeights from an arbitrary J-state: n=%d, configured weights symbolic in [0,2^13], current weights symbolic within the invariant, ratings from {0,0.02,0.5,1} and readiness symbolic, timer and back-off symbolic; weightsGcd stubbed to 1 (normalisation is O1b)", n)})
+			if n == 2 || thorough {
+				add(&Job{Name: fmt.Sprintf("O1c-adjust/n=%d,real-gcd,wmax=3", n), Pkg: "roundrobin", Harness: "VerifC10Adjust", Params: p("n", n, "wmax", 3, "stubgcd", 0), TimeoutS: 120, BranchTimeoutS: 3,
+					Bounds: fmt.Sprintf("one adjustWeights with the real gcd/normalisation: n=%d, configured weights in [0,3], current weights <= 12, ratings from {0,0.02,0.5,1}", n)})
+			}
+			add(&Job{Name: fmt.Sprintf("O1b-normalize/n=%d", n), Pkg: "roundrobin", Harness: "VerifC10Normalize", Params: p("n", n), Inductive: true, TimeoutS: 120,
+				Bounds: fmt.Sprintf("normalizeWeights with a symbolic common divisor g in [2,2^13] of n=%d weights m_i*g, m_i in [1,2^13]", n)})
+			add(&Job{Name: fmt.Sprintf("O2-reset/n=%d", n), Pkg: "roundrobin", Harness: "VerifC10Reset", Params: p("n", n), TimeoutS: 120,
+				Bounds: fmt.Sprintf("add / re-weight / remove through the rebalancer from an arbitrary J-state, n=%d", n)})
+		}
 	}
 	return js
 }
